@@ -145,6 +145,7 @@ type rpc =
 | KEmpty
 | KChans
 | KTake
+| KRun
 | RSusp
 | RPd0
 | RPd1
@@ -165,6 +166,7 @@ type res =
 | ROk of nat
 | REmpty
 | RDisc
+| RCancel
 
 type spc =
 | SIdle
@@ -276,6 +278,8 @@ type action =
 | DropPort
 | RStep
 | Worker
+| Spur
+| RCan
 | Send
 | DropChan
 | SStep
@@ -402,11 +406,15 @@ let step fixed s ac =
             | WC ->
               Some
                 (mk s.q None s.chans s.pdrop s.ttok s.runq
-                  (r_set x RPop1 CFin) y s.sent s.rcvd s.drpd s.freed))
+                  (r_set x KRun x.rc) y s.sent s.rcvd s.drpd s.freed))
          | None ->
            Some
              (mk s.q s.slot s.chans s.pdrop s.ttok s.runq
                (r_set x RSusp x.rc) y s.sent s.rcvd s.drpd s.freed))
+      | KRun ->
+        Some
+          (mk s.q s.slot s.chans s.pdrop s.ttok s.runq (r_set x RPop1 CFin) y
+            s.sent s.rcvd s.drpd s.freed)
       | RPd0 ->
         Some
           (mk s.q s.slot s.chans true s.ttok s.runq (r_set x RPd1 x.rc) y
@@ -429,6 +437,30 @@ let step fixed s ac =
         then Some
                (mk s.q s.slot s.chans s.pdrop s.ttok false
                  (r_set x RPop1 CFin) y s.sent s.rcvd s.drpd s.freed)
+        else None
+      | _ -> None)
+   | Spur ->
+     (match x.rp with
+      | RPark ->
+        Some
+          (mk s.q s.slot s.chans s.pdrop s.ttok s.runq (r_set x RPop1 CFin) y
+            s.sent s.rcvd s.drpd s.freed)
+      | _ -> None)
+   | RCan ->
+     (match x.rp with
+      | KStore ->
+        Some
+          (mk s.q s.slot s.chans s.pdrop s.ttok s.runq (r_ret x RCancel) y
+            s.sent s.rcvd s.drpd s.freed)
+      | KRun ->
+        Some
+          (mk s.q s.slot s.chans s.pdrop s.ttok s.runq (r_ret x RCancel) y
+            s.sent s.rcvd s.drpd s.freed)
+      | RSusp ->
+        if s.runq
+        then Some
+               (mk s.q s.slot s.chans s.pdrop s.ttok false (r_ret x RCancel)
+                 y s.sent s.rcvd s.drpd s.freed)
         else None
       | _ -> None)
    | Send ->
@@ -579,6 +611,9 @@ let rpc_eqb x y =
   | KTake -> (match y with
               | KTake -> true
               | _ -> false)
+  | KRun -> (match y with
+             | KRun -> true
+             | _ -> false)
   | RSusp -> (match y with
               | RSusp -> true
               | _ -> false)
@@ -633,10 +668,10 @@ let isnil = function
 
 let res_is r0 k v =
   match r0 with
-  | RNone -> false
   | ROk i -> (&&) (Z.eqb k Z0) (Z.eqb v (Z.of_nat i))
   | REmpty -> Z.eqb k (Zpos XH)
   | RDisc -> Z.eqb k (Zpos (XO XH))
+  | _ -> false
 
 type plan = { acts : action list; post : (st -> bool); nxt : (st -> aux) }
 
@@ -687,9 +722,19 @@ let is_s x a =
 
 let wake s =
   match s.r.rp with
-  | RPark -> RStep :: []
+  | RPark -> if s.ttok then RStep :: [] else Spur :: []
+  | KRun -> RStep :: []
   | RSusp -> Worker :: []
   | _ -> []
+
+(** val cancel_acts : st -> action list option **)
+
+let cancel_acts s =
+  match s.r.rp with
+  | KStore -> Some (RCan :: [])
+  | KRun -> Some (RCan :: [])
+  | RSusp -> if s.runq then Some (RCan :: []) else None
+  | _ -> None
 
 (** val in_pop : st -> bool **)
 
@@ -776,9 +821,18 @@ let plan_ev s x = function
                                  | _ -> None)
                               | _ -> None)
                            | XH ->
-                             guard
-                               ((&&) ((&&) (is_r x a) (at_r s RIdle))
-                                 (res_is s.r.rres o v)) (skip (set_ract x O)))
+                             if Z.eqb o (Zpos (XI (XO XH)))
+                             then guard (is_r x a)
+                                    (match cancel_acts s with
+                                     | Some l3 ->
+                                       Some { acts = l3; post = (fun s' ->
+                                         at_r s' RIdle); nxt = (fun _ ->
+                                         set_ract x O) }
+                                     | None -> None)
+                             else guard
+                                    ((&&) ((&&) (is_r x a) (at_r s RIdle))
+                                      (res_is s.r.rres o v))
+                                    (skip (set_ract x O)))
                         | XH ->
                           guard
                             ((&&) ((&&) (is_s x a) (at_s s SIdle))
